@@ -119,8 +119,19 @@ def reader_tokens(prog, ty):
         if init is None or core.strip(init).get("k") == "Closure":
             continue
         binders.append((st["pat"], init))
+    # `if let Some(_) = pieces.next() { return Err(too many) }` is the end-of-input test, not a piece that is taken
+    end_tests = set()
     for n in core.walk_fn(rf, into_closures=False):
-        if n.get("k") == "LetExpr":
+        if n.get("k") == "If":
+            cnd = core.strip(n["c"])
+            if cnd.get("k") == "LetExpr":
+                t = core.strip(n["t"])
+                while t.get("k") == "Block" and len(t["b"]["stmts"]) + (1 if "expr" in t["b"] else 0) == 1:
+                    t = core.strip(t["b"]["expr"] if "expr" in t["b"] else t["b"]["stmts"][0].get("e", {}))
+                if t.get("k") == "Ret" and "Err" in core.fingerprint(t.get("e", {}), 3):
+                    end_tests.add(id(cnd))
+    for n in core.walk_fn(rf, into_closures=False):
+        if n.get("k") == "LetExpr" and id(n) not in end_tests:
             binders.append((n["pat"], n["init"]))
     alias = {}
     for pat, init in sorted(binders, key=lambda b: _spk(b[1])):
